@@ -13,6 +13,7 @@ package provisioning
 //@   prop C04
 //@   modifies *
 //@   site (*Provisioner).Schedule requires [synced] @(*Cluster).Synced
+//@   site (*Provisioner).Schedule requires [everyClaimLaunched] state.allLaunched(p.cluster)
 //@   site (*Provisioner).CreateNodeClaims requires [synced] @(*Cluster).Synced
 
 // ---- (5b) nodes marked for deletion are not handed to the scheduler as capacity; all others are ----
